@@ -382,45 +382,58 @@ non-empty page; zero-sized pages are swallowed without yielding anything); a fre
 unset flag means `type_check` against THAT page's columns before the row is deserialized.  The pages' column
 specs may all differ (each page carries its own result metadata, or uses the statement's cached one). -/
 
-/-- One received page: its own column specs (names and types) and its number of rows. -/
+/-- One received page: its own column specs (names and types) and, per announced row, whether the raw row
+iterator (`RawRowLendingIterator::next`, `scylla-cql/src/deserialize/result.rs`) could read it (`false` = a
+truncated / malformed row: `QueryPager::next` answers `RowDeserializationError` for it). -/
 structure PageM where
   specs : List (String × CqlTy)
-  rows : Nat
+  raws : List Bool
   deriving Repr, Inhabited
+
+/-- A page whose `n` rows are all readable. -/
+def PageM.intact (specs : List (String × CqlTy)) (n : Nat) : PageM := ⟨specs, List.replicate n true⟩
+
+def PageM.rows (p : PageM) : Nat := p.raws.length
 
 /-- What the typed stream hands to its consumer. -/
 inductive StreamOut where
   | row (page : Nat)
   | typeErr (page : Nat)
+  | rawErr (page : Nat)
   deriving Repr, DecidableEq, Inhabited
 
-/-- The body of `poll_next` for one row of a page whose columns pass (`ok`) or fail `T::type_check`:
+/-- The body of `poll_next` for one READABLE row of a page whose columns pass (`ok`) or fail `T::type_check`:
 new flag, and whether the row became a type-check error. -/
 def streamRow (ok fresh flag : Bool) : Bool × Bool :=
   let flag1 := if fresh then false else flag
   if !flag1 then (if ok then (true, false) else (flag1, true)) else (true, false)
 
-/-- The rows of page `i`, for a consumer that keeps polling after error items: a refused row is consumed (the
-`ColumnIterator` was already taken from the page) and the flag stays unset, so EVERY remaining row of a page that
-does not fit is refused again; returns the flag after the page. -/
-def pageRows (ok : Bool) (i : Nat) : Nat → Bool → Bool → List StreamOut × Bool
-  | 0, _, flag => ([], flag)
-  | n + 1, fresh, flag =>
+/-- The rows of page `i`, for a consumer that keeps polling after error items.  A refused row is consumed and
+the flag stays unset, so EVERY remaining row of a page that does not fit is refused again.  For an UNREADABLE row
+`QueryPager::next` returns `Some(Err(RowDeserializationError))` (pager.rs:726-731): the `and_then` closure of
+`poll_next` (1321) does not run — the flag is not touched AND THE `fresh_page` BIT OF THAT CALL IS LOST: the next
+row of the page comes with `fresh = false`.  Returns the flag after the page. -/
+def pageRows (ok : Bool) (i : Nat) : List Bool → Bool → Bool → List StreamOut × Bool
+  | [], _, flag => ([], flag)
+  | false :: rs, _, flag =>
+    match pageRows ok i rs false flag with
+    | (os, r) => (.rawErr i :: os, r)
+  | true :: rs, fresh, flag =>
     match streamRow ok fresh flag with
     | (flag', true) =>
-      match pageRows ok i n false flag' with
+      match pageRows ok i rs false flag' with
       | (os, r) => (.typeErr i :: os, r)
     | (flag', false) =>
-      match pageRows ok i n false flag' with
+      match pageRows ok i rs false flag' with
       | (os, r) => (.row i :: os, r)
 
 /-- The pages fetched after the first one (the producer keeps fetching whatever the consumer was told). -/
 def streamPages (check : List (String × CqlTy) → Bool) : Nat → List PageM → Bool → List StreamOut
   | _, [], _ => []
   | i, p :: ps, flag =>
-    if p.rows = 0 then streamPages check (i + 1) ps flag
+    if p.raws.isEmpty then streamPages check (i + 1) ps flag
     else
-      match pageRows (check p.specs) i p.rows true flag with
+      match pageRows (check p.specs) i p.raws true flag with
       | (os, flag') => os ++ streamPages check (i + 1) ps flag'
 
 /-- `rows_stream::<T>()` and the items of the whole stream, polled to its end THROUGH error items; `none` = the
@@ -430,14 +443,31 @@ def typedStream (check : List (String × CqlTy) → Bool) : List PageM → Optio
   | p :: ps =>
     if !check p.specs then none
     else
-      match pageRows (check p.specs) 0 p.rows false true with
+      match pageRows (check p.specs) 0 p.raws false true with
       | (os, flag) => some (os ++ streamPages check 1 ps flag)
 
 /-- What a consumer that stops at the first error item sees. -/
 def untilFirstError : List StreamOut → List StreamOut
   | [] => []
   | .row i :: r => .row i :: untilFirstError r
-  | .typeErr i :: _ => [.typeErr i]
+  | o :: _ => [o]
+
+/-- The raw row iterator cannot recover within a page: once a row is unreadable, every later announced row of
+that page is (C08: `iterRows_after_error`, `lending_iterator_is_plain_iterator`). -/
+def stickyRaws : List Bool → Bool
+  | [] => true
+  | true :: rs => stickyRaws rs
+  | false :: rs => rs.all (· == false)
+
+/-- The item the stream owes the consumer for one announced row of page `i`. -/
+def itemOf (ok : Bool) (i : Nat) (readable : Bool) : StreamOut :=
+  if readable then (if ok then .row i else .typeErr i) else .rawErr i
+
+/-- THE SPECIFICATION of the typed stream: one item per announced row, page by page in order — the row itself
+iff it is readable and its page's OWN columns pass the check. -/
+def streamSpec (check : List (String × CqlTy) → Bool) : Nat → List PageM → List StreamOut
+  | _, [] => []
+  | i, p :: ps => p.raws.map (itemOf (check p.specs) i) ++ streamSpec check (i + 1) ps
 
 /-! ### values -/
 
